@@ -28,7 +28,7 @@ def FLOORS(tier):
     q = tier == "quick"
     f = {"convert_solution-checks": 3000 if q else 10 ** 5, "export:Q": 60, "export:hJ": 60,
          "export:matrix_to_qubo": 60, "export:qubo_to_matrix": 100, "real-coefficients": 100,
-         "raw-repeated-labels": 50, "all-ones-solution": 30, "user-mapping:set_mapping": 60, "user-mapping:set_reverse_mapping": 60,
+         "raw-repeated-labels": 50, "raw-long-spellings": 100, "cleared-and-refilled": 200, "matrix_to_qubo:tiny-units": 10, "matrix_to_qubo:nearly-symmetric": 10, "all-ones-solution": 30, "user-mapping:set_mapping": 60, "user-mapping:set_reverse_mapping": 60,
          "export-before-relabelling": 80, "term-added-after-user-mapping": 40,
          "second-call-after-result-edited": 300, "convert_solution:flag-independent-of-form": 300,
          "user-mapping:positional+keywords": 10}
@@ -67,6 +67,20 @@ def case_free(ctx, rng):
     maxd = 2 if (d2 or tn in ("QUBO", "QUSO", "QUBOMatrix", "QUSOMatrix")) else rng.choice([2, 3, 4, 5])
     raw = tn == "dict" and rng.random() < 0.6
     terms = gen.rand_terms(rng, labs, maxd, coefs=coefs, raw=raw, lo=0, hi=6)
+    if raw and rng.random() < 0.4:
+        # longer spellings of the same monomials: a label repeated (boolean x*x = x), a pair of equal spins inserted (z*z = 1)
+        t2 = {}
+        for k, v in terms.items():
+            k = list(k)
+            if kind == "bool" and k:
+                k.append(rng.choice(k))
+            elif kind == "spin":
+                y = rng.choice(labs)
+                k += [y, y]
+            rng.shuffle(k)
+            t2.setdefault(tuple(k), v)
+        terms = t2
+        ctx.cat("raw-long-spellings")
     if raw and any(len(set(k)) < len(k) for k in terms):
         ctx.cat("raw-repeated-labels")
     src = ref.from_raw(kind, terms)
@@ -133,6 +147,21 @@ def case_method(ctx, rng):
     maxd = 2 if d2 else rng.choice([2, 2, 3, 5])
     terms = gen.rand_terms(rng, labs, maxd, lo=0, hi=6, raw=rng.random() < 0.2)
     M = gen.model_of(T, terms)
+    if rng.random() < 0.2:
+        # the object had an earlier life: other terms over other labels, then clear() (or a product with 0), then the terms above
+        old = gen.labels(rng, rng.randint(1, 4)) + ["old_a", "old_b"]
+        M = gen.model_of(T, gen.rand_terms(rng, old, maxd, lo=1, hi=4))
+        how = rng.choice(["clear", "clear", "imul0"])
+        try:
+            if how == "clear":
+                M.clear()
+            else:
+                M *= 0
+            for k, v in terms.items():
+                M[k] += v
+        except KeyError:
+            return
+        ctx.cat("cleared-and-refilled")
     if rng.random() < 0.7:
         M.refresh()
     if rng.random() < 0.25 and M.num_binary_variables:
@@ -302,6 +331,16 @@ def case_export(ctx, rng):
     if which == "matrix_to_qubo":
         n = rng.randint(1, 5)
         mat = [[rng.choice([0, 0, 1, -2, 0.5, 3]) for _ in range(n)] for _ in range(n)]
+        style = rng.choice(["plain", "plain", "tiny-units", "nearly-symmetric"])
+        if style == "tiny-units":
+            # the same kind of matrix in small units (all entries ~1e-9): nothing about it is "approximately symmetric"
+            mat = [[v * 1e-9 for v in row] for row in mat]
+        elif style == "nearly-symmetric":
+            mat = [[float(rng.choice([1, -2, 0.5, 3, 7])) for _ in range(n)] for _ in range(n)]
+            for i in range(n):
+                for j in range(i):
+                    mat[i][j] = mat[j][i] * (1 + rng.choice([1e-6, -3e-6, 1e-7, 0]))
+        ctx.cat("matrix_to_qubo:" + style)
         arg = np.array(mat) if rng.random() < 0.5 else mat
         w = {"export": which, "matrix": mat}
         ok, Q = ctx.call(which, L.utils.matrix_to_qubo, arg, _w=w)
@@ -311,7 +350,8 @@ def case_export(ctx, rng):
         for i in range(n):
             for j in range(n):
                 exp.add((i, j), mat[i][j])
-        if type(Q).__name__ != "QUBOMatrix" or ref.from_raw("bool", dict(Q)) != exp:
+        scale_ = max([abs(v) for row in mat for v in row] + [0])
+        if type(Q).__name__ != "QUBOMatrix" or not ref.from_raw("bool", dict(Q)).close_to(exp, 1e-12 * scale_):
             ctx.violation("matrix_to_qubo:function-changed", "x^T M x = %r but result %r" % (exp.show(), dict(Q)), w)
             return
         ctx.nontrivial((which, mat))
